@@ -14,6 +14,7 @@ use mc::env;
 use mc::exec::Pattern;
 use mc::ifaces::MAIN_SPEC;
 use mc::mainx::{proc_obs, run_obs};
+use mc::log::K;
 use mc::par;
 use mc::runx::{self, End};
 use mc::spec::msg::{self, flat_admits, FaultKind, Flat, Iface, Lit, LitKind, Msg, MsgEffect, Obs, Unit};
@@ -168,6 +169,31 @@ fn check_alone(st: &mut St, m: &mut M) {
         return;
     }
     let leaves_of_base_run = mc::exec::leaves();
+    // "executes the units before the faulty one normally": what a unit has written is flushed
+    // before the next unit's handler starts, and nothing is left unflushed at the end
+    let unflushed = mc::log::with(|l| {
+        let mut dirty = false;
+        let mut bad: Option<&'static str> = None;
+        for e in &l.ev {
+            match e.k {
+                K::WBytes => dirty = true,
+                K::WFlush => dirty = false,
+                K::Enter if dirty && bad.is_none() => bad = Some("a-response-is-still-unflushed-when-the-next-handler-starts"),
+                _ => {}
+            }
+        }
+        if dirty && bad.is_none() {
+            bad = Some("a-response-is-left-unflushed-at-the-end");
+        }
+        bad
+    });
+    if let Some(kind) = unflushed {
+        let feat = vec![("fault_kind", kind_name(&m.fault)), ("kind", kind.to_string())];
+        let bytes = m.bytes.clone();
+        st.groups.add("alone", &feat, (bytes.len(), &bytes), || {
+            (json!({"mode": "run", "input": hex(&bytes)}), format!("run(\"{}\"): {kind}; observed {}", show(&bytes), obs.show()))
+        });
+    }
     let mut none = Flat::default();
     none.push(&m.eff.pre);
     let mut all = none.clone();
